@@ -14,7 +14,7 @@ V_DICT = L("ValueDataType", "equal_to", dict)
 V_LIST = L("ValueDataType", "equal_to", list)
 V_EQ1 = L("Value", "equal_to", 1)
 
-PRIMS = [("prim", p) for p in ("a", "b", "", 0, 1, -1, 1.5, True, False, 1.0)]
+PRIMS = [("prim", p) for p in ("a", "b", "", 0, 1, -1, 1.5, True, False, 1.0, "1")]
 BARE = [("map", None, None, None), ("list", None, None, None), ("mol", None, None, None, None)]
 MAPS = [
     ("map", L("Key", "in_", ["a", 1]), None, None),
@@ -33,6 +33,9 @@ MAPS = [
     ("map", ("or", L("Key", "less_than", 2), L("Key", "equal_to", "a")), None, None),   # one branch undefined for str keys
     ("map", K_OR, V_DICT, None),                                                          # (k1 or k2) and v: mixed operators
     ("map", ("lit", 2.0), None, None),                                                    # whole-number float key
+    ("map", ("lit", "1"), None, None),                                                    # numeric-looking string key
+    ("map", None, ("xor", L("Value", "truthy"), V_EQ1), None),     # xor whose first operand holds for (almost) every child
+    ("map", None, ("xor", V_EQ1, V_EQ1), None),                    # xor of two equal conditions: selects nothing
 ]
 LISTS = [
     ("list", L("Index", "less_than", 1), None, None),
@@ -44,6 +47,7 @@ LISTS = [
     ("list", I_OR, None, None),
     ("list", None, ("lit", "a"), None),
     ("list", None, ("xor", L("ValueLength", "equal_to", 2), L("Value", "equal_to", 5)), None),   # one branch undefined for numbers
+    ("list", None, ("xor", L("Value", "not_equal_to", "zz"), L("ValueDataType", "equal_to", int)), None),   # first operand holds for every child
 ]
 MOLS = [
     ("mol", k, i, v, None)
@@ -59,7 +63,7 @@ PARTS = PRIMS + BARE + MAPS + LISTS + MOLS
 PARTS20 = [PRIMS[0], PRIMS[3], PRIMS[4], PRIMS[6], PRIMS[7]] + BARE + [MAPS[0], MAPS[3], MAPS[6], MAPS[8]] + \
           [LISTS[0], LISTS[3], LISTS[5], LISTS[6]] + [MOLS[0], MOLS[2], MOLS[6], MOLS[7]]
 PARTS12 = [PRIMS[0], PRIMS[3], PRIMS[4]] + BARE + [MAPS[5], MAPS[7], LISTS[4], LISTS[6], MOLS[6], MOLS[7]]
-PARTS12X = PARTS12 + [MAPS[11], MOLS[-1], MAPS[13], MAPS[14], MAPS[15], LISTS[8], PRIMS[9]]
+PARTS12X = PARTS12 + [MAPS[11], MOLS[-1], MAPS[13], MAPS[14], MAPS[15], LISTS[8], PRIMS[9], MAPS[16], MAPS[17], MAPS[18], LISTS[9]]
 
 
 def paths(max_len, parts):
